@@ -154,8 +154,9 @@ def serialize(vs, little):
     return parts
 
 
-def respond(dmr, payload, little, sizes):
-    """sizes: chunk sizes of the partition of payload (the remainder goes into the last chunk)"""
+def respond(dmr, payload, little, sizes, flag_all=True):
+    """sizes: chunk sizes of the partition of payload (the remainder goes into the last chunk).
+    flag_all=False: the byte-order bit is set on the first (DMR) chunk only - the first chunk is the authoritative one"""
     out = chunk(4 if little else 0, dmr)
     pos = 0
     pieces = []
@@ -165,7 +166,7 @@ def respond(dmr, payload, little, sizes):
     pieces.append(payload[pos:])
     for i, p in enumerate(pieces):
         last = i == len(pieces) - 1
-        out += chunk((1 if last else 0) + (4 if little else 0), p)
+        out += chunk((1 if last else 0) + (4 if (little and flag_all) else 0), p)
     return out
 
 
@@ -198,8 +199,8 @@ class Dap4App:
     """Serves a dataset description (Node tree) over DAP4: <path>.dmr and <path>.dap?dap4.ce=<fqn><hyperslab>.
     Records the query strings it receives in .seen."""
 
-    def __init__(self, root, little=True, chunk_sizes=()):
-        self.root, self.little, self.chunk_sizes = root, little, tuple(chunk_sizes)
+    def __init__(self, root, little=True, chunk_sizes=(), flag_all=True):
+        self.root, self.little, self.chunk_sizes, self.flag_all = root, little, tuple(chunk_sizes), flag_all
         self.seen = []
 
     def __call__(self, environ, start_response):
@@ -271,4 +272,4 @@ class Dap4App:
         sub, picked = self.constrain(q)
         ser = serialize(picked, self.little)
         payload = b"".join(raw + cks for raw, cks in ser)
-        return respond(render_dmr(sub), payload, self.little, self.chunk_sizes)
+        return respond(render_dmr(sub), payload, self.little, self.chunk_sizes, self.flag_all)
